@@ -355,15 +355,22 @@ def _webp_file(W, H, payload):
     return b"RIFF" + len(body).to_bytes(4, "little") + body
 
 
-def _insitu_files(run, n):
+def _insitu_files(run, n, caps_per_file=4):
+    """whole .webp files (RIFF + VP8L chunk) through webpsan::sanitize under the capacity hook"""
     rng = run.rng
     for i in range(n):
-        W, H, data, _ = V.build_lossless(rng, ["plain", "deep"][i % 2])
-        if W > 16384 or H > 16384:
-            continue
-        f = _webp_file(W, H, data)
-        for cap in [4096, 16, 17, rng.randint(18, 63), 64]:
-            yield "insitu %d %s" % (cap, f.hex()), "insitu-file"
+        W, H, data, _ = V.build_lossless(rng, ["plain", "deep", "extrabits"][i % 3])
+        variants = [("valid", data)]
+        if len(data) > 4:
+            variants.append(("trunc", data[:rng.randint(1, len(data) - 1)]))
+            b = bytearray(data)
+            b[rng.randrange(len(b))] ^= 1 << rng.randrange(8)
+            variants.append(("flip", bytes(b)))
+        for vname, d in variants:
+            f = _webp_file(W, H, d)
+            caps = [4096, 16] + (CAPS[:-1] if caps_per_file is None else rng.sample(CAPS[:-1], caps_per_file))
+            for cap in dict.fromkeys(caps):
+                yield "insitu %d %s" % (cap, f.hex()), "insitu-file-" + vname
 
 
 def gen(run):
@@ -381,7 +388,7 @@ def gen(run):
     yield from _random_seq(run, 1500 if quick else 40000)
     yield from _malformed_seq(run, 400 if quick else 6000)
     yield from _lossless(run, 45 if quick else 600, 6 if quick else None)
-    yield from _insitu_files(run, 4 if quick else 20)
+    yield from _insitu_files(run, 30 if quick else 300, 4 if quick else None)
 
 
 # ------------------------------------------------------------------------------------------------ the ideal reader
@@ -612,6 +619,7 @@ def search(run, disagreements):
             for ch in ("1", "100000", "3,1,7"):
                 yield " ".join([t[0], str(cap), ch] + t[3:]), "search"
     yield from _lossless(run, 120, None, "search-lossless")
+    yield from _insitu_files(run, 60, None)
 
 
 def _coq_bytes(b):
